@@ -725,6 +725,7 @@ func init() {
 	registerChild("idchain", func(args []string) int { return serveBatch(args, runIdChain) })
 	registerChild("idfield", func(args []string) int { return serveBatch(args, runIdField) })
 	registerChild("idcraft", func(args []string) int { return serveBatch(args, runIdCraft) })
+	registerChild("idfault", func(args []string) int { return serveBatch(args, runIdFault) })
 	register("C09", runC09)
 }
 
@@ -777,6 +778,8 @@ func runC09(tier, replay string) int {
 	if replay != "" {
 		data, _ := os.ReadFile(replay)
 		switch {
+		case strings.Contains(string(data), `"fault_depth"`):
+			return replayOne[IdFaultCase, IdFaultResult](replay, "idfault", env)
 		case strings.Contains(string(data), `"defect"`):
 			return replayOne[IdCraftCase, IdCraftResult](replay, "idcraft", env)
 		case strings.Contains(string(data), `"class"`):
@@ -909,12 +912,85 @@ func runC09(tier, replay string) int {
 			r.Sample(map[string]any{"case": c, "observed": res})
 		}
 	}
+
+	// part 4: commits hit by storage faults, then retried
+	faults := c09FaultCases(r)
+	xouts := runBatches[IdFaultCase, IdFaultResult]("", "idfault", faults, 3, 60*time.Second, env)
+	// two passes, so that the witness reported for a key is a schedule with as few faults as possible
+	for pass := 0; pass < 2; pass++ {
+		for i, oc := range xouts {
+			c := faults[i]
+			if pass == 0 {
+				if oc.Crashed {
+					r.Case("crash", false)
+					r.Violation("crash:"+oc.Site, "process died on fault case "+c.Name+":\n"+oc.Excerpt, c)
+					continue
+				}
+				if oc.TimedOut || oc.Result == nil {
+					r.Case("timeout", false)
+					r.Inconclusive("fault case " + c.Name + " did not finish")
+					continue
+				}
+			}
+			if oc.Result == nil {
+				continue
+			}
+			res := oc.Result
+			if res.HarnessError != "" {
+				if pass == 0 {
+					r.Case("harness-error", false)
+					r.Inconclusive("fault case " + c.Name + ": " + res.HarnessError)
+				}
+				continue
+			}
+			shape := fmt.Sprintf("backend=%s api=%s stored=%d origin=%s pending=%d", c.Backend, c.API, c.Committed, c.Origin, c.Pending)
+			if pass == 0 {
+				r.Seen("commit_fault_call_lists", strings.Join(res.CallList, " "))
+				for k, v := range res.MutKinds {
+					r.Count("commit_fault/pending_mutation_kind:"+k, v)
+				}
+			}
+			for j, o := range res.Obs {
+				if (len(o.Schedule) <= 1) != (pass == 0) {
+					continue
+				}
+				rc := c
+				rc.Only = o.Schedule
+				if o.Unfinished != "" {
+					r.Case("fault-unfinished", false)
+					r.Inconclusive(fmt.Sprintf("fault case %s schedule %v: %s", c.Name, o.Schedule, o.Unfinished))
+					continue
+				}
+				r.Case("commit-fault:"+shape+" faults=["+strings.Join(o.Faults, ",")+"]", true)
+				r.Count(fmt.Sprintf("commit_fault/schedules_with_%d_faults", len(o.Faults)), 1)
+				r.Count("commit_fault/commit_attempts", o.Attempts)
+				r.Count("commit_fault/failed_commit_left_nothing_pending_although_ref_not_moved", o.Stuck)
+				r.Count("commit_fault/versions_checked_after_successful_commit", o.Expected)
+				for _, f := range o.Faults {
+					r.Count("commit_fault/injected_at:"+callOf(f), 1)
+				}
+				for t := 0; t < o.Attempts-1 && t < len(o.StoredLens); t++ {
+					if o.StoredLens[t] != c.Committed {
+						r.Count("commit_fault/failed_attempts_that_moved_the_ref", 1)
+					}
+				}
+				for _, f := range o.Findings {
+					k, what := splitFinding(f)
+					r.Violation(k, what+" [case "+c.Name+"]", rc)
+				}
+				if (i*7+j)%97 == 0 {
+					r.Sample(map[string]any{"case": rc, "observed": o})
+				}
+			}
+		}
+	}
 	r.Extra("exhaustive", false)
-	r.Extra("scope", "chains: every (p,a,b) in {1..3}x{0..3}x{0..3} on two replicas through identity.* / RepoCache.MergeAll / RepoCache.Pull, 0..2 bystander identities (new, new+1, remote-ahead, equal, local-ahead) placed before/after the main one in ref order, merge repeated once; fields: valid/invalid/open values for name, login, email, avatar, metadata, keys and clocks through NewIdentityFull/Mutate/SetMetadata + Commit (entity and cache API); crafted: version blobs written with StoreData/StoreTree/StoreCommit under refs/remotes/x/identities, merged by identity.MergeAll")
+	r.Extra("scope", "chains: every (p,a,b) in {1..3}x{0..3}x{0..3} on two replicas through identity.* / RepoCache.MergeAll / RepoCache.Pull, 0..2 bystander identities (new, new+1, remote-ahead, equal, local-ahead) placed before/after the main one in ref order, merge repeated once; fields: valid/invalid/open values for name, login, email, avatar, metadata, keys and clocks through NewIdentityFull/Mutate/SetMetadata + Commit (entity and cache API); crafted: version blobs written with StoreData/StoreTree/StoreCommit under refs/remotes/x/identities, merged by identity.MergeAll; commit faults: identities with 0..2 stored and 1..3 pending versions (entity API on the creating object or a re-read one, cache API), Commit on a decorator failing every storage call of the attempt in turn, retried (retries hit again, schedules of depth 2; 3 on the in-memory backend in thorough), go-git and in-memory backend")
 	return r.Finish("chain cases: the reference model over (common prefix, local suffix, remote suffix) computed from independently decoded version-id and commit chains gives the status and the chain after the merge for every identity of the pull; field and crafted cases: the model applies the four refusal clauses of the statement (decreasing clock, dropped clock, no name and login, unsafe characters) and leaves everything else open; non-trivial = every conclusive case; distinct = distinct shape signature (p,a,b,api,bystander layout,order | field class,position,api | crafted defect,base,position)",
 		60, []string{
 			"version ids (sha256 of the version blob) and commit chains come from gitraw.ReadIdentity, not from git-bug's reader",
 			"'unsafe characters' is taken as: line breaks and C0 control characters/DEL in name, login, email or avatar; tab, C1 controls, zero-width/bidi marks, blank-only names, metadata content, non-URL avatars and undecodable keys are open questions (either behaviour accepted, crashes excepted)",
+			"commit faults: a Commit that returns an error may leave anything behind that still extends the stored chain; only a Commit that reports success must have stored every version the object was given (compared by name/login/email/avatar/number of keys decoded from the raw blobs). When a failed Commit leaves nothing pending (fault at the final UpdateRef) one more Mutate is made before the retry; that is counted, not flagged",
 			"RepoCache.Pull documents that it stops at the first failing merge: identities it leaves unmerged after a refused one are counted, not flagged; identity.MergeAll and RepoCache.MergeAll must process every identity",
 		})
 }
